@@ -28,6 +28,14 @@ class CallMixin:
         loops = [x for x in ast.walk(fn) if isinstance(x, (ast.For, ast.While, ast.AsyncFor))]
         loops.sort(key=lambda x: (x.lineno, x.col_offset))
         self.loop_ord = {id(x): i for i, x in enumerate(loops)}
+        # k-th subscript store into the same container name, in source order
+        stores = [x for x in ast.walk(fn) if isinstance(x, ast.Subscript) and isinstance(x.ctx, ast.Store)]
+        stores.sort(key=lambda x: (x.lineno, x.col_offset))
+        self.store_ord, cnt_ = {}, {}
+        for x in stores:
+            nm = x.value.attr if isinstance(x.value, ast.Attribute) else (x.value.id if isinstance(x.value, ast.Name) else "?")
+            self.store_ord[id(x)] = cnt_.get(nm, 0)
+            cnt_[nm] = cnt_.get(nm, 0) + 1
         rets = [x for x in ast.walk(fn) if isinstance(x, ast.Return)]
         rets.sort(key=lambda x: (x.lineno, x.col_offset))
         self.ret_ord = {id(x): i for i, x in enumerate(rets)}
@@ -109,6 +117,14 @@ class CallMixin:
             d = self.ev(n.args[2], st, old)
             e = T(("Opt", m.sort[2]), f"(select {m.s} {k.s})")
             return T(d.sort, f"(ite {is_some(e).s} {unopt(e).s} {d.s})")
+        if name == "member":
+            # member(x, xs): sequence membership as seq.contains (the list mutators give contains-facts; `x in xs` uses the index form)
+            x = self.ev(n.args[0], st, old)
+            xs = self.ev(n.args[1], st, old)
+            if isinstance(xs, T) and isinstance(xs.sort, tuple) and xs.sort[0] == "Opt":
+                xs = unopt(xs)
+            x = self.coerce(x, xs.sort[1], "member")
+            return T(BOOL, f"(seq.contains {xs.s} (seq.unit {x.s}))")
         if name == "visited":
             return st.env[f"$vis{n.args[0].value}" if n.args else "$viscur"]
         if name == "index":
@@ -428,6 +444,8 @@ class CallMixin:
                 return ("mapview", at, recv)
             if at == "update" and len(n.args) == 1 and not n.keywords:
                 x = self.ev(n.args[0], st, old)
+                if isinstance(x, T) and x.sort == ("Opt", s):
+                    x = unopt(x)      # d.update(opt) is only reached when opt is a dict (None would raise TypeError)
                 if isinstance(x, T) and x.sort != s and "as_map" in self.m.hooks:
                     x = self.m.hooks["as_map"](self, x) or x
                 if isinstance(x, EmptyV):
@@ -494,6 +512,7 @@ class CallMixin:
                 st.pc.append(f"(= (seq.len {r.s}) (+ (seq.len {recv.s}) 1))")
                 st.pc.append(f"(forall ((|q_a| Int)) (! (=> (and (>= |q_a| 0) (< |q_a| (seq.len {recv.s}))) (= (seq.nth {r.s} |q_a|) (seq.nth {recv.s} |q_a|))) :pattern ((seq.nth {r.s} |q_a|)) :pattern ((seq.nth {recv.s} |q_a|))))")
                 st.pc.append(f"(= (seq.nth {r.s} (seq.len {recv.s})) {x.s})")
+                st.pc.append(f"(forall ((|q_e| {sort_smt(s[1])})) (! (= (seq.contains {r.s} (seq.unit |q_e|)) (or (seq.contains {recv.s} (seq.unit |q_e|)) (= |q_e| {x.s}))) :pattern ((seq.contains {r.s} (seq.unit |q_e|)))))")
                 if self.store_back(f.value, r, st):
                     return T(NONE, "none")
             if at == "extend" and len(n.args) == 1:
@@ -513,6 +532,18 @@ class CallMixin:
                         return T(NONE, "none")
             if at == "copy":
                 return recv
+            if at == "pop" and not n.args:
+                # xs.pop(): removes and returns the last element; IndexError on an empty list
+                if not self.branch(T(BOOL, f"(> (seq.len {recv.s}) 0)"), st):
+                    raise RaiseEx("IndexError", None, n.lineno)
+                last = T(s[1], f"(seq.nth {recv.s} (- (seq.len {recv.s}) 1))")
+                r = self.opaque("popped", s)
+                st.pc.append(f"(= {r.s} (seq.extract {recv.s} 0 (- (seq.len {recv.s}) 1)))")
+                st.pc.append(f"(= (seq.len {r.s}) (- (seq.len {recv.s}) 1))")
+                st.pc.append(f"(forall ((|q_a| Int)) (! (=> (and (>= |q_a| 0) (< |q_a| (seq.len {r.s}))) (= (seq.nth {r.s} |q_a|) (seq.nth {recv.s} |q_a|))) :pattern ((seq.nth {r.s} |q_a|))))")
+                st.pc.append(f"(forall ((|q_e| {sort_smt(s[1])})) (! (= (seq.contains {recv.s} (seq.unit |q_e|)) (or (seq.contains {r.s} (seq.unit |q_e|)) (= |q_e| {last.s}))) :pattern ((seq.contains {recv.s} (seq.unit |q_e|))) :pattern ((seq.contains {r.s} (seq.unit |q_e|)))))")
+                if self.store_back(f.value, r, st):
+                    return last
         if s == STR:
             if at in ("startswith", "endswith") and len(n.args) == 1:
                 x = self.ev(n.args[0], st, old)
